@@ -16,6 +16,8 @@ import time
 from .events import emit
 
 GLOBAL = 'import-time'   # C16: the caller overwrites this after import
+LAB_CTX = None           # C16: the very dict object given to Lab(context=...), and the process that owns it
+LAB_CTX_PID = None
 
 
 class MultiArgError(Exception):
@@ -26,6 +28,10 @@ class MultiArgError(Exception):
         super().__init__(f'{a}/{b}')
         self.a = a
         self.b = b
+
+
+class ChainedError(Exception):
+    """The task's own exception, raised `from` a lower-level one (explicit __cause__) or while handling one."""
 
 
 class PlannedBase(BaseException):
@@ -143,17 +149,37 @@ def plan_entry(plan, name):
 
 
 def do_logs(ops):
+    import logging
     from labtech import logger
+    suppressed = []
+    # labtech turns captured stdout into INFO records and captured stderr into ERROR records of the task's logger
+    # when the stream is flushed: lines flushed while that logger is not enabled for the level are not emitted
+    unflushed = {'out': [], 'err': []}
+    stream_level = {'out': logging.INFO, 'err': logging.ERROR}
     for op in ops or ():
         kind = op[0]
         if kind == 'log':
+            if not logger.isEnabledFor(getattr(logging, op[1].upper())):
+                suppressed.append(op[2])      # the task's own logger does not emit this record at all
             getattr(logger, op[1])(op[2])
+        elif kind == 'setlevel':
+            logger.setLevel(getattr(logging, op[1]))
         elif kind == 'print':
+            unflushed[op[1]].append(op[2])
             print(op[2], file=(sys.stdout if op[1] == 'out' else sys.stderr))
         elif kind == 'write':
+            unflushed[op[1]].append(op[2])
             (sys.stdout if op[1] == 'out' else sys.stderr).write(op[2])
         elif kind == 'flush':
+            if not logger.isEnabledFor(stream_level[op[1]]):
+                suppressed += unflushed[op[1]]
+            unflushed[op[1]] = []
             (sys.stdout if op[1] == 'out' else sys.stderr).flush()
+    for ch, toks in unflushed.items():      # flushed by labtech when the task ends, under the level left behind
+        if toks and not logger.isEnabledFor(stream_level[ch]):
+            suppressed += toks
+    if suppressed:
+        emit('log-suppressed', toks=suppressed[:20000])
 
 
 def run_body(task):
@@ -210,6 +236,16 @@ def run_body(task):
             raise ValueError(f'planned failure of {name}')
         if act == 'raise:Multi':
             raise MultiArgError(name, 3)
+        if act == 'raise:Chained':
+            try:
+                {}['missing']
+            except KeyError as low:
+                raise ChainedError(name) from low
+        if act == 'raise:Context':
+            try:
+                {}['missing']
+            except KeyError:
+                raise ChainedError(name)
         if act == 'raise:SystemExit':
             sys.exit(3)
         if act == 'raise:Base':
@@ -224,9 +260,36 @@ def run_body(task):
         raise RuntimeError(f'vlab: unknown action {act}')
     value = combine(tname, name, getattr(task, 'p', None), dep_vals, ctx_digest(ctx), gen)
     out = shape_value(value, ent.get('shape'), task)
+    if ent.get('ctxmut') and LAB_CTX is not None and os.getpid() == LAB_CTX_PID:
+        # a task of the serial backend runs in the caller's memory: it rebinds a key of the Lab's context
+        k, v = ent['ctxmut']
+        LAB_CTX[k] = v
+        emit('ctxmut', name=name, key=k, value=v)
     hook = ent.get('prereturn')
     if hook:
         from . import inject
         inject.prereturn(hook, name)
     emit('end', name=name, gen=gen, status='ok')
+    if ent.get('linger'):
+        # the task returns, its process does not exit yet (a non-daemon thread, an executor that is not shut down):
+        # the thread stays until it has seen another task start after this one ended, or every task has started,
+        # or a generous timeout passes - and reports which
+        import threading
+        threading.Thread(target=_linger, args=(name, gen, ent['linger'], time.monotonic_ns()), daemon=False).start()
     return out
+
+
+def _linger(name, gen, cfg, t_end):
+    from .events import read_events
+    ctl = os.environ['VLAB_CTL']
+    deadline = time.monotonic() + cfg.get('timeout', 20)
+    saw = None
+    while time.monotonic() < deadline and saw is None:
+        starts = [e for e in read_events(ctl) if e['k'] == 'start' and e.get('gen') == gen]
+        if any(e['name'] != name and e['t'] > t_end for e in starts):
+            saw = 'later-start'
+        elif len({e['name'] for e in starts}) >= cfg['total']:
+            saw = 'all-started'
+        else:
+            time.sleep(0.01)
+    emit('linger-end', name=name, gen=gen, saw=saw, waited_s=round((time.monotonic_ns() - t_end) / 1e9, 2))
